@@ -1258,6 +1258,10 @@ func capacityReplay(r *hx.Rng) {
 func main() {
 	a := hx.ParseArgs()
 	reexecUnderGorace(a.Out)
+	if os.Getenv("C17_SOAK_CHILD") != "" {
+		soakChildMain(a)
+		return
+	}
 	res = hx.NewResult("one evaluation = one operation sequence on a fresh pool (every step compared with the model); non-trivial = contains at least one mark-executed/unmark; distinct by (flags, limit, full step list)")
 	common.Init(0, "p.ini", "dev")
 	common.SetBlockHeight(100)
@@ -1304,20 +1308,9 @@ func main() {
 	raceReplay(r.Fork())
 	capacityReplay(r.Fork())
 	clearReplay(r.Fork())
-	if a.Tier == "thorough" {
-		soak(r.Fork(), 3000)
-		for i := 0; i < 150; i++ {
-			raceSoakRound(r.Fork(), i, false)
-		}
-		for i := 0; i < 30; i++ {
-			raceSoakRound(r.Fork(), 150+i, true)
-		}
-	} else {
-		soak(r.Fork(), 200)
-		for i := 0; i < 10; i++ {
-			raceSoakRound(r.Fork(), i, false)
-		}
-	}
+	// the free-running soaks run in a child process: corrupting a Go map under concurrent use is a fatal
+	// runtime error that no recover() catches, and it must become a reported violation, not a dead harness
+	runSoakChild(a, r.U64())
 	if raceEnabled {
 		n := collectRaceReports(a.Out)
 		res.Note(fmt.Sprintf("race detector active (GORACE halt_on_error=0): %d report(s) in total", n))
